@@ -296,20 +296,23 @@ CHECKS["C20"] = {
         "github.com/asaskevich/govalidator.ValidateStruct": "github.com/free5gc/go-upf/pkg/factory.zzModelValidateStruct",
     }),
     "no_native_entries": ["ZZ_C20_NewDriver", "ZZ_C20_ReadConfig"],
+    "pregen": "gen_c20",
     "jobs": {
         "quick": [{"pkg": "internal/forwarder", "entries": ["ZZ_C20_*"], "witnesses": 8, "max_paths": 100000},
-                  {"pkg": "pkg/factory", "entries": ["ZZ_C20_*"], "witnesses": 2, "max_paths": 100000}],
+                  {"pkg": "pkg/factory", "entries": ["ZZ_C20_*"], "witnesses": 5000, "max_paths": 100000}],
         "thorough": [{"pkg": "internal/forwarder", "entries": ["ZZ_C20_*"], "witnesses": 24, "max_paths": 100000},
-                     {"pkg": "pkg/factory", "entries": ["ZZ_C20_*"], "witnesses": 2, "max_paths": 100000}],
+                     {"pkg": "pkg/factory", "entries": ["ZZ_C20_*"], "witnesses": 20000, "max_paths": 1000000}],
     },
     "covers": {"all": ["ZZ_C20_Version:C20.version.accepted", "ZZ_C20_Version:C20.version.rejected", "ZZ_C20_VersionFaults:C20.version.faults.done",
                        "ZZ_C20_NewDriver:C20.driver.started", "ZZ_C20_NewDriver:C20.driver.rejected", "ZZ_C20_NewDriver:C20.driver.open-failed",
-                       "ZZ_C20_ReadConfig:C20.readconfig.accepted", "ZZ_C20_ReadConfig:C20.readconfig.rejected"]},
-    "bounds": {"quick": "version strings [v]X.Y.Z with 1-2 symbolic digits per field (16 templates) through the real Gtp5g.checkVersion / gtp5gnl.GetVersion / DecodeVersion and go-version's LessThan / GreaterThanOrEqual, oracle = the property's window hard-wired; kernel faults; NewDriver over 5 configuration shapes x open success/failure with a symbolic MTU; ReadConfig with a symbolic failure Boolean per stage",
-               "thorough": "same"},
-    "outside": "PARTIAL: which YAML documents yaml.v2 and govalidator accept (struct tags interpreted through reflection) is not decided - see DESIGN.md section 7; pre-release / metadata version suffixes; versions with more than 2 digits per field or other than 3 fields",
+                       "ZZ_C20_ReadConfig:C20.readconfig.accepted", "ZZ_C20_ReadConfig:C20.readconfig.rejected",
+                       "ZZ_C20_Document:C20.document.accepted", "ZZ_C20_Document:C20.document.rejected"]},
+    "bounds": {"quick": "version strings [v]X.Y.Z with 1-2 symbolic digits per field (16 templates) through the real Gtp5g.checkVersion / gtp5gnl.GetVersion / DecodeVersion and go-version's LessThan / GreaterThanOrEqual, oracle = the property's window hard-wired; kernel faults; NewDriver over 5 configuration shapes x open success/failure with a symbolic MTU; ReadConfig with a symbolic failure Boolean per stage; configuration documents: a valid reference document with every choice of up to 2 faults among 17 fields (version, pfcp, pfcp.addr, nodeID, retransTimeout, maxRetrans, gtpu, forwarder, ifList, its addr/type/mtu, dnnList, its dnn/cidr, logger, level) x 5 kinds (deleted, emptied, invalid or out of range, mistyped, another valid value) through ReadConfig with the validator model GENERATED from the struct tags of the working tree; oracle = the property's definition of a valid configuration written out by hand (zzSpecAccepts); every explored document (3 486) is replayed natively as a YAML file through the real yaml.v2, govalidator and ReadConfig",
+               "thorough": "same with up to 3 faults per document (88 486 documents, 20 000 of them replayed natively)"},
+    "outside": "PARTIAL: configuration documents other than fault-perturbations of the one reference document (arbitrary YAML, unknown keys, several list entries, anchors/merges); validator tags outside the modelled vocabulary required/optional/in/host/cidr/ip/ipv4/dns (the check is then inconclusive, exit 2); node ids that are host names needing DNS; pre-release / metadata version suffixes; versions with more than 2 digits per field or other than 3 fields",
     "assumptions": FWD_ASSUME + ["go-version NewVersion/Compare replaced in the engine by Go-source models (overlays/go-version/version.go = the original file plus the models); the version harness is replayed natively against the real library",
-                                 "OpenGtp5g, os.ReadFile, yaml.Unmarshal, govalidator.ValidateStruct replaced in the engine by recording/symbolic models; these two harnesses have no native replay (the real functions need the kernel module / the file system)"],
+                                 "OpenGtp5g, os.ReadFile, yaml.Unmarshal, govalidator.ValidateStruct replaced in the engine by recording/symbolic models; ZZ_C20_NewDriver and ZZ_C20_ReadConfig have no native replay (the real functions need the kernel module / the file system)",
+                                 "ZZ_C20_Document: govalidator.ValidateStruct = model generated by tools/gen_c20.py from the struct tags read with go/types on every run (semantics of govalidator's ValidateStruct/typeCheck/checkRequired/isEmptyValue for the vocabulary above; string validators by a classification table of the 8 candidate strings); yaml.Unmarshal = zzDoc.decode (absent/empty = zero value, mistyped or overflowing scalar = error). Both models are cross-validated on every run: each explored document is rendered to a file and run through the real libraries natively, verdicts and assertion outcomes compared"],
 }
 
 CHECKS["C07"] = {
